@@ -16,6 +16,24 @@ import polars as pl
 from .core import ArrayType1D, GroupBy
 
 
+def _check_keys_aligned_with_object(obj, grouping_keys):
+    """
+    The grouped object is the values input of every method, also of those that never look
+    at the values (size, cumcount): grouping keys of another length, or pandas keys carrying
+    another index, are misaligned and rejected like any other misaligned input.
+    """
+    for key in grouping_keys:
+        if hasattr(key, "__len__") and len(key) != len(obj):
+            raise ValueError(
+                f"Length of grouper ({len(key)}) != length of grouped object ({len(obj)})"
+            )
+        if isinstance(key, pd.Series) and isinstance(obj, (pd.Series, pd.DataFrame)):
+            if not key.index.equals(obj.index):
+                raise ValueError(
+                    "Found different indices in the grouping key and the grouped object"
+                )
+
+
 def groupby_aggregation(
     description: str,
     extra_params: str = "",
@@ -568,6 +586,8 @@ class SeriesGroupBy(BaseGroupBy):
             for lv in levels:
                 grouping_keys.append(obj.index.get_level_values(lv))
 
+        _check_keys_aligned_with_object(obj, grouping_keys)
+
         # Create the grouper
         grouper = GroupBy(grouping_keys)
 
@@ -927,6 +947,8 @@ class DataFrameGroupBy(BaseGroupBy):
 
             for lv in levels:
                 grouping_keys.append(obj.index.get_level_values(lv))
+
+        _check_keys_aligned_with_object(obj, grouping_keys)
 
         # Create the grouper
         grouper = GroupBy(grouping_keys)
